@@ -36,3 +36,28 @@ Proof.
   rewrite sum_aeif_link. reflexivity.
 Qed.
 End Link.
+
+(* _detect_loss at now: in EXACT arithmetic every packet it keeps has sent_time + loss_delay > now, so the loss_time it
+   stores is None or later than now: firing the loss timer at loss_time advances it.  (With floats sent_time + delay == now
+   and sent_time > now - delay can both hold: C19's O3(a).) *)
+Section Adv.
+Context (F : fops Z).
+
+Definition exact_arith : Prop :=
+  (forall a b, fadd F a b = a + b) /\ (forall a b, fleb F a b = (a <=? b)) /\ (forall a b, fltb F a b = (a <? b)).
+
+Lemma detect_scan_advances_lemma : exact_arith -> forall la pth now delay l lt0 lost x,
+  (forall y, lt0 = Some y -> now < y) ->
+  detect_scan F la pth (now - delay) delay l lt0 = (lost, Some x) -> now < x.
+Proof.
+  intros (Hadd & Hle & Hlt) la pth now delay l. induction l as [|p t IH]; intros lt0 lost x H0 H; cbn [detect_scan] in H.
+  - inversion H; subst. now apply H0.
+  - destruct (p_pn p >? la); [inversion H; subst; now apply H0|].
+    destruct ((p_pn p <=? pth) || fleb F (p_time p) (now - delay)) eqn:E.
+    + destruct (detect_scan F la pth (now - delay) delay t lt0) as [lost' lt'] eqn:Er. inversion H; subst. eapply IH; eauto.
+    + apply orb_false_iff in E. destruct E as [_ E]. rewrite Hle in E. apply Z.leb_gt in E.
+      eapply IH; [|exact H]. intros y Hy. rewrite Hadd in Hy. destruct lt0 as [x0|].
+      * rewrite Hlt in Hy. destruct (p_time p + delay <? x0); inversion Hy; subst; [lia|now apply H0].
+      * inversion Hy; subst. lia.
+Qed.
+End Adv.
